@@ -105,9 +105,9 @@ func (C13) Meta() core.Meta {
 
 func (C13) Runs(tier string) uint64 {
 	if tier == "thorough" {
-		return 4000000
+		return 20000000
 	}
-	return 250000
+	return 1500000
 }
 
 func genOps(r *core.Rand, n int) []Op {
